@@ -14,5 +14,9 @@ PROP = dict(
              # forged abbreviated handshakes: victim client whose sslSessionId_t went through {nothing, a handshake cut after NewSessionTicket, completed id / ticket / id+ticket
              # session}; a keyless scripted peer (harness/puppet12) answers ServerHello [NST] CCS Finished + application data under guessed master secrets
              dict(name='c01_forged_resumption', src=['props/C01/forged_resumption.cc', 'harness/puppet12.cc', 'harness/wraps.c'], libs=['-lcrypto'], wraps=WRAPS, env={'VERIF_DIR': '/verif'},
-                  quick=dict(cases=6400, secs=25), thorough=dict(cases=200000, secs=300))],
+                  quick=dict(cases=6400, secs=25), thorough=dict(cases=200000, secs=300)),
+             # TLS 1.3 client offering an external PSK vs. a server that has no key of the client at all: every (suite, early secret, pre_shared_key answer, selected identity,
+             # client suite list, PSK hash) combination
+             dict(name='c01_keyless13', src=['props/C01/keyless13.cc', 'props/C01/tls13_keyless_server.c', 'harness/wraps.c'], wraps=WRAPS, env={'VERIF_DIR': '/verif'}, enumerate=True,
+                  quick=dict(cases=0, secs=40, stride=1), thorough=dict(cases=0, secs=60, stride=1))],
 )
